@@ -1,4 +1,6 @@
 import RgVerif.Lemmas.SearcherTop
+import RgVerif.Lemmas.SearcherTopFast
+import RgVerif.Lemmas.SearcherSpecFacts
 /-
 C03 — results follow the grep model (order, uniqueness, context windows, separators, numbering,
 byte offsets, byte count).  Only the deciding statements live here; proofs are in `Lemmas/Searcher*.lean`.
@@ -33,6 +35,63 @@ theorem C03_default_matcher (cfg : Config) (m : MatcherI) (inp : Bytes) (hbin : 
     (h1 : m.lineTerminator = none) (h2 : m.nonMatchingBytes = none) :
     (sliceByLine cfg m allCont inp).events = grepSpec cfg (lineSel cfg m) inp :=
   (sliceByLine_slow cfg m inp hbin (by simp [isLineByLineFast, h1, h2])).1
+
+/-- **C03, fast path** (no `stop_on_nonmatch`; with it the fast path hands over to the slow loop after the
+first match). `FindSpec` is the contract of `find_by_line_fast` on this input: started at a line start it
+returns the first line from there on that the pattern matches (it follows from a `LineSafe`-style matcher
+contract: no match spans the terminator, matching inside a line is context independent, the candidate
+finder has no false negatives). Under it the fast path (plain and inverted) delivers exactly the grep
+model, with the *same* selection predicate as the slow path. -/
+theorem C03_fast (cfg : Config) (m : MatcherI) (inp : Bytes) (hbin : cfg.binary = .none)
+    (hfast : isLineByLineFast cfg m (Core.new cfg true) = true) (hstop : cfg.stopOnNonmatch = false)
+    (hfind : FindSpec cfg m inp (linesOf cfg m inp)) :
+    (sliceByLine cfg m allCont inp).events = grepSpec cfg (lineSel cfg m) inp ∧
+      (sliceByLine cfg m allCont inp).result = .ok () :=
+  sliceByLine_fast cfg m inp hbin hfast hstop hfind
+
+/-! ### Corollaries (the five clauses of the property)
+
+`Agrees` is the conclusion of `C03_slow` / `C03_fast`; each clause below holds for every run covered by
+either theorem. -/
+
+/-- the sink's log equals the grep model of the input -/
+def Agrees (cfg : Config) (m : MatcherI) (inp : Bytes) : Prop :=
+  (sliceByLine cfg m allCont inp).events = grepSpec cfg (lineSel cfg m) inp
+
+/-- results come in input order and no line is delivered twice (offsets strictly increase) -/
+theorem delivered_sorted_nodup {cfg : Config} {m : MatcherI} {inp : Bytes} (h : Agrees cfg m inp) :
+    ((sliceByLine cfg m allCont inp).events.filterMap evOff).Pairwise (· < ·) := by
+  rw [h]; exact spec_sorted_nodup cfg _ inp
+
+/-- every delivered line is a line of the input with its true 1-based number, true offset and own bytes -/
+theorem numbers_true {cfg : Config} {m : MatcherI} {inp : Bytes} (h : Agrees cfg m inp)
+    (ev : Event) (hev : ev ∈ (sliceByLine cfg m allCont inp).events) (off : Nat) (ho : evOff ev = some off) :
+    ∃ i, i < (effective cfg (linesOf cfg m inp)).length ∧
+      off = offsetAt (effective cfg (linesOf cfg m inp)) i ∧
+      evLine ev = some (lineNo cfg i) ∧ evBytes ev = some (bytesAt (effective cfg (linesOf cfg m inp)) i) := by
+  rw [h] at hev
+  exact spec_numbers_true cfg _ ev hev off ho
+
+/-- a search that runs to completion reports the input's full length -/
+theorem bytecount_full {cfg : Config} {m : MatcherI} {inp : Bytes} (h : Agrees cfg m inp)
+    (hs : cfg.stopOnNonmatch = false) :
+    (sliceByLine cfg m allCont inp).events.getLast? = some (Event.finish inp.length none) := by
+  rw [h]; exact spec_bytecount_full cfg _ inp hs
+
+/-- context windows are exact: line `i` is delivered iff it is selected, or within `A` lines after /
+(passthru off) `B` lines before a selected line, or passthru is on -/
+theorem context_exact (cfg : Config) (sl : List SLine) (i : Nat) :
+    delivered cfg sl i = true ↔
+      (selAt sl i = true ∨ (∃ j, j < i ∧ selAt sl j = true ∧ i - j ≤ cfg.afterContext) ∨ cfg.passthru = true ∨
+        ∃ j, i < j ∧ selAt sl j = true ∧ j - i ≤ cfg.beforeContext) :=
+  spec_context_exact cfg sl i
+
+/-- a separator is signalled exactly between non-adjacent groups of delivered lines -/
+theorem break_iff_gap (cfg : Config) (sl : List SLine) (i : Nat) (hd : delivered cfg sl i = true) :
+    Event.contextBreak ∈ lineEvents cfg sl i ↔
+      ((cfg.beforeContext > 0 ∨ cfg.afterContext > 0) ∧ i ≥ 1 ∧ delivered cfg sl (i - 1) = false ∧
+        ∃ j, j < i ∧ delivered cfg sl j = true) :=
+  spec_break_iff_gap cfg sl i hd
 
 /-! ### Non-vacuity: a concrete matcher ("line contains `x`"), context 1/1, six lines, two groups -/
 
